@@ -123,4 +123,49 @@ ENTRIES = {
         "note": TB + "; ASan/Miri flavours are optional: if the nightly build is unavailable the run is INCONCLUSIVE for that flavour, never silently green",
         "technique": "runtime monitoring under sanitizers: std UB checks + overflow checks, AddressSanitizer, Miri; support-membership oracle; hang watchdog",
     },
+    "C13": {
+        "text": "Decodes arbitrary data with the real ChainCoder on 11 type rows, handles the remainders in each of the three documented ways (and both framings), "
+                "re-encodes in reverse and requires word-exact restoration, also across precision schedules undone in reverse (change_precision and "
+                "increase/decrease_precision); drives the coder into both exhaustion conditions and requires exactly the documented error with untouched heads; "
+                "asserts the documented head invariant after every single step through a cfg-guarded accessor.",
+        "note": TB + "; there is no published bit-level specification of the chain coder, so there is no reference implementation for it: round trip, error kinds and invariants are the oracles",
+        "technique": "runtime monitoring: round-trip oracle over generated histories + invariant assertion at a hook after every step + exhaustion fault paths",
+    },
+    "C14": {
+        "text": "Obtains the chunk map black-box from the real coder with an identity model, then checks for arbitrary models that symbol_i = model_i(chunk_i) and that "
+                "the coder runs out of data at the same step, replaces the model at every position and flips every data bit in turn (sampled for long inputs) and "
+                "requires that at most the corresponding symbol / chunk changes and never the exhaustion point.",
+        "note": TB + "; bit flips in the top State/Word words under from_compressed framing are excluded (head initialisation length depends on their value)",
+        "technique": "runtime monitoring: metamorphic perturbation (model replacement, bit flips) against a black-box chunk map from the real coder",
+    },
+    "C15": {
+        "text": "Builds encoder and decoder Huffman trees from generated weight vectors rich in ties, zeros and deep trees and compares EVERY codeword with an independent "
+                "reference construction (the documented (weight,index) tie-break), checks prefix-freeness, the exact Kraft equality, optimality against an independent "
+                "two-queue cost, prefix == reversed suffix form, decode(codeword) == symbol, rejection of out-of-alphabet symbols and NaN reporting.",
+        "note": TB,
+        "technique": "runtime monitoring: differential comparison with an independent reference construction + exact integer structural checks",
+    },
+    "C16": {
+        "text": "Runs interleaved write/read/export/re-import/inspection histories on the bit-level stack and queue coders for five word types against a shadow list of items "
+                "(bits, Exp-Golomb and Huffman symbols), at every fill level of the last word, and sweeps Exp-Golomb round trips over all u8 values, a dense u16 set and all "
+                "2^k-1/2^k/2^k+1/MAX edges of u32/u64 in prefix and suffix form.",
+        "note": TB,
+        "technique": "runtime monitoring: shadow-container oracle over generated histories + exhaustive/dense value sweeps for Exp-Golomb",
+    },
+    "C17": {
+        "text": "Drives every provided backend (Vec, SmallVec, Cursor over four buffer kinds, Reverse<Cursor>, iterator and callback adapters) with generated op histories in "
+                "lock step with a 40-line reference, verifies remaining()/space_left()/is_full()/is_exhausted() by actually draining / filling a clone, seeks back to "
+                "reported positions, requires refusal of out-of-range positions without side effects, None-after-None, and that in-place reversal is observationally a no-op. "
+                "Thorough adds AddressSanitizer and Miri for the unchecked accesses.",
+        "note": TB,
+        "technique": "runtime monitoring: lock-step reference backend + drain-a-clone bound oracle; ASan/Miri in thorough",
+    },
+    "C20": {
+        "text": "Re-runs a slice of every explorer C01..C19 under the standard library's unsafe-precondition and overflow checks (quick: plus a Miri shard of the abuse workload; "
+                "thorough: plus AddressSanitizer and Miri on everything) and adds an accessor-abuse workload (Cursor::buf_mut shrink/replace/grow, forged positions, coders from forged "
+                "raw parts, forged seeks). Only aborts, sanitizer/Miri reports and unsafe-precondition panics count. Cursor::buf_mut breaking the position invariant is a known finding "
+                "(K2), matched on its root-cause signature; every other UB event is a VIOLATION.",
+        "note": TB + "; ASan cannot see intra-allocation overreads, Miri workloads are small, paths no explorer drives are not judged",
+        "technique": "sanitizers and UB interpreter over the runtime-monitoring workloads: std UB checks + overflow checks, Miri, AddressSanitizer; abort localisation and classification by the driver",
+    },
 }
